@@ -223,7 +223,10 @@ def conf_name(conf):
     return 'globals=%d|shadow=%d|%s' % (conf[0], conf[1], conf[2])
 
 
-def check_text(acc, text, confs):
+def check_text(acc, text, confs, warmup=None):
+    """warmup: a text printed first with the SAME printer objects (the
+    property quantifies over printer configurations, and a printer object is
+    reusable - C14 - so the second use must be as good as the first)"""
     acc.cases += 1
     out = I.run_parse(text, keep_node=True)
     if out.kind != 'accept':
@@ -232,8 +235,15 @@ def check_text(acc, text, confs):
     for conf in confs:
         cn = conf_name(conf)
         w = {'text': text, 'conf': list(conf)}
+        if warmup is not None:
+            w['warmup'] = warmup
+            cn = cn + '|reused-printer'
         try:
             pp, po = make_printers(conf)
+            if warmup is not None:
+                first = I.run_parse(warmup, keep_node=True)
+                list(pp(first.node))
+                list(po(first.node))
             plain = ''.join(f.text for f in pp(out.node))
             frags = list(po(out.node))
             obf = ''.join(f.text for f in frags)
@@ -340,10 +350,17 @@ def run(tier, rep):
     items += [(t, [(True, False, 'minify'), (False, False, 'minify')])
               for t in s2]
 
+    # the same spaces once more through printer objects that were used before
+    reuse = [(t, flag4[:1] + flag4[3:] + others[:1], 'function w(p){ var q; '
+              'return p + q; }') for t in bnd]
+    reuse += [(t, flag4[:1], 'var k = 1;') for t in texts
+              if t.count('{') <= 1]
+    items += reuse
+
     def work(chunk, idx):
         acc = Acc()
-        for t, confs in chunk:
-            check_text(acc, t, confs)
+        for it in chunk:
+            check_text(acc, *it)
         return acc
     total = Acc()
     for a in pmap(work, items):
@@ -351,6 +368,7 @@ def run(tier, rep):
     rep.bag.merge(total.bag)
     rep.space('binding-structures', programs=len(texts))
     rep.space('boundary-family', programs=len(bnd))
+    rep.space('reused-printer', cases=len(reuse))
     rep.space('S2', programs=len(s2))
     rep.cov['states'] = total.cases
     rep.cov['transitions'] = total.traces
@@ -378,5 +396,5 @@ def run(tier, rep):
 
 def replay(w):
     acc = Acc()
-    check_text(acc, w['text'], [tuple(w['conf'])])
+    check_text(acc, w['text'], [tuple(w['conf'])], w.get('warmup'))
     return [{'sig': s, 'detail': v[2]} for s, v in acc.bag.d.items()]
